@@ -43,7 +43,10 @@ def gen_subst(depth, onef, onev, abf, abv, allv, none, upu, dnu):
 
 
 def plan(ctx):
-    """The TLC runs of a tier. The representatives of the classes 'one field' / 'all but one field' rotate
+    """The TLC runs of a tier (tag, cfg substitution, (num, depth) for -simulate). In simulation mode TLC evaluates
+    the invariants - hence Emit - on every candidate successor, so one random walk yields one behaviour per operation
+    that is possible at its last step (about 140 with the full alphabet): num walks give ~140 x num behaviours.
+    The representatives of the classes 'one field' / 'all but one field' rotate
     with the seed in the deep runs; the wide run takes every field and every value class."""
     rnd = random.Random(ctx.seed)
     f = FIELDS[:]
@@ -51,20 +54,22 @@ def plan(ctx):
     f1, f2, f3 = f[0], f[1], f[2]
     runs = []
     if ctx.quick():
-        # every sequence of 4 operations over a reduced alphabet (18 operations per step)
-        runs.append(("deep4", gen_subst(4, [f1], ["z"], [f2], ["p1"], ["p1", "max"], True, ["p1"], ["p2"]), None))
+        # every sequence of 4 operations over a reduced alphabet (3 write classes: 14 operations per step)
+        runs.append(("deep4", gen_subst(4, [f1], ["z"], [], [], ["p1"], True, ["p1"], ["p2"]), None))
+        # every sequence of 3 operations over 6 write classes incl. the extremes (20 operations per step)
+        runs.append(("mid3", gen_subst(3, [f2], ["min", "m1"], [f3], ["p1"], ["max", "z"], True, ["p1"], ["p2"]), None))
         # every sequence of 2 operations over the full alphabet: 6 fields x 5 values for one / all-but-one, all x 5
         runs.append(("wide2", gen_subst(2, FIELDS, V5, FIELDS, V5, V5, True, ["p1", "max"], ["z", "p2"]), None))
-        runs.append(("sim8", gen_subst(8, FIELDS, V5, [f2, f3], ["z", "p1"], V5, True, ["p1", "max"], ["z", "p2"]), (300, 8)))
-        mc = dict(gen_subst(3, [f1, f2], V5, [f3], ["z", "p1"], V5, True, ["p1", "max"], ["z", "p2"]))
+        runs.append(("sim8", gen_subst(8, FIELDS, V5, [f2, f3], ["z", "p1"], V5, True, ["p1", "max"], ["z", "p2"]), (30, 8)))
+        mc = dict(gen_subst(3, [f1], V5, [f2], ["p1"], ["z", "p1", "max"], True, ["p1"], ["p2"]))
     else:
         runs.append(("deep5", gen_subst(5, [f1], ["z"], [], [], ["p1"], True, ["p1"], ["p2"]), None))
         runs.append(("deep4", gen_subst(4, [f1, f2], ["z", "min"], [f3], ["p1"], ["p1", "max"], True, ["p1"], ["p2"]), None))
         runs.append(("wide2", gen_subst(2, FIELDS, V5, FIELDS, V5, V5, True, ["p1", "max"], ["z", "p2"]), None))
         runs.append(("wide3", gen_subst(3, FIELDS, ["z", "m1"], [f1, f2], ["p1"], V5, True, ["p1", "max"], ["p2"]), None))
-        runs.append(("sim10", gen_subst(10, FIELDS, V5, FIELDS, ["z", "p1", "max"], V5, True, ["p1", "max"], ["z", "p2"]), (6000, 10)))
-        runs.append(("sim30", gen_subst(30, FIELDS, V5, [f2, f3], ["z", "p1"], V5, True, ["p1", "p3"], ["z", "p2"]), (400, 30)))
-        mc = dict(gen_subst(4, [f1, f2], V5, [f3], ["z", "p1"], V5, True, ["p1", "max"], ["z", "p2"]))
+        runs.append(("sim10", gen_subst(10, FIELDS, V5, FIELDS, ["z", "p1", "max"], V5, True, ["p1", "max"], ["z", "p2"]), (300, 10)))
+        runs.append(("sim30", gen_subst(30, FIELDS, V5, [f2, f3], ["z", "p1"], V5, True, ["p1", "p3"], ["z", "p2"]), (60, 30)))
+        mc = dict(gen_subst(4, [f1], V5, [f2], ["p1"], ["z", "p1", "max"], True, ["p1"], ["p2"]))
     mc.pop("NONE")
     mc.update({"ARZ": "TRUE", "RNR": "TRUE"})
     return runs, mc
@@ -99,16 +104,17 @@ def run(ctx):
     inp = os.path.join(ctx.work, "c18_behaviours.ndjson")
     counts = {}
     per = max(2, lib.NCPU // 4)
+    jenv = {"JAVA_TOOL_OPTIONS": "-Xss64m -XX:ParallelGCThreads=4"}  # several JVMs run side by side
 
     def one(item):
         tag, subst, sim = item
         if tag == "mc":
-            return tag, lib.run_tlc(ctx, "UserDB", "UserDB_mc.cfg", subst, workers=per, tag="mc", timeout=1500)
+            return tag, lib.run_tlc(ctx, "UserDB", "UserDB_mc.cfg", subst, workers=per, tag="mc", timeout=1500, env=jenv)
         if sim:
-            return tag, lib.run_tlc(ctx, "UserDBGen", "UserDBGen.cfg", subst, workers=1, simulate=sim[0], depth=sim[1] + 2,
-                                    tag="gen_" + tag, timeout=1500)
+            return tag, lib.run_tlc(ctx, "UserDBGen", "UserDBGen.cfg", subst, workers=1, simulate=sim[0], depth=sim[1] + 1,
+                                    tag="gen_" + tag, timeout=1500, env=jenv)
         return tag, lib.run_tlc(ctx, "UserDBGen", "UserDBGen.cfg", subst, workers=lib.NCPU if tag.startswith("deep") else per,
-                                tag="gen_" + tag, timeout=1500)
+                                tag="gen_" + tag, timeout=1500, env=jenv)
 
     items = [("mc", mc, None)] + runs
     with open(inp, "w") as fh, concurrent.futures.ThreadPoolExecutor(max_workers=len(items)) as ex:
